@@ -402,6 +402,7 @@ fn signing_key(keys: &Keys, idx: usize, alg: &Alg) -> Arc<dyn rustls::sign::Sign
 /// (ii-a) the adversary dials an honest listener
 fn adversary_dials(run: &mut Run, rng: &mut Rng, keys: &Keys, case: u64) -> anyhow::Result<()> {
     let seed = run.seed ^ (case << 8) ^ 0xAD;
+    run.mark(&format!("scenario adversary_dials case {case} seed {} (re-run with ./check <property> --seed <seed>)", run.seed));
     let spec = {
         let mut s = gen_spec(rng, keys.ed.len(), &NAMES);
         if rng.chance(1, 3) {
@@ -504,6 +505,7 @@ fn adversary_dials(run: &mut Run, rng: &mut Rng, keys: &Keys, case: u64) -> anyh
 /// (ii-b) an honest network dials an address where the adversary listens
 fn adversary_listens(run: &mut Run, rng: &mut Rng, keys: &Keys, case: u64) -> anyhow::Result<()> {
     let seed = run.seed ^ (case << 8) ^ 0xA1;
+    run.mark(&format!("scenario adversary_listens case {case} seed {} (re-run with ./check <property> --seed <seed>)", run.seed));
     let mut spec = gen_spec(rng, keys.ed.len(), &["verif", "Verif", "other"]);
     if rng.chance(1, 3) {
         spec = CertSpec { spki: spec.spki, spki_alg: Alg::Ed25519, signer: spec.spki, sig_alg: Alg::Ed25519, names: vec!["verif".into()], validity: 0, corrupt: None };
@@ -614,6 +616,7 @@ fn adversary_listens(run: &mut Run, rng: &mut Rng, keys: &Keys, case: u64) -> an
 /// (iii) honest endpoints with (primary, alternate?) name configurations, both directions, pinned or not
 fn honest_names(run: &mut Run, rng: &mut Rng, case: u64) -> anyhow::Result<()> {
     let seed = run.seed ^ (case << 8) ^ 0x14;
+    run.mark(&format!("scenario honest_names case {case} seed {} (re-run with ./check <property> --seed <seed>)", run.seed));
     let pool = ["verif", "Verif", "other", "a.b", "A.B", "net-1", "verif2"];
     let cfgs: Vec<(String, Option<String>)> = (0..2)
         .map(|_| {
@@ -692,6 +695,7 @@ fn honest_names(run: &mut Run, rng: &mut Rng, case: u64) -> anyhow::Result<()> {
 /// C01, last sentence: the PeerId on a request / response is the authenticated one whatever the message carries
 fn message_attribution(run: &mut Run, rng: &mut Rng, case: u64) -> anyhow::Result<()> {
     let seed = run.seed ^ (case << 8) ^ 0xA7;
+    run.mark(&format!("scenario message_attribution case {case} seed {} (re-run with ./check <property> --seed <seed>)", run.seed));
     let n_msgs = 6;
     let mut plans = vec![];
     for _ in 0..n_msgs {
@@ -749,6 +753,7 @@ fn message_attribution(run: &mut Run, rng: &mut Rng, case: u64) -> anyhow::Resul
 /// certificate, with datagram loss and concurrent dials
 fn pinned_history(run: &mut Run, rng: &mut Rng, keys: &Keys, case: u64) -> anyhow::Result<()> {
     let seed = run.seed ^ (case << 8) ^ 0x03;
+    run.mark(&format!("scenario pinned_history case {case} seed {} (re-run with ./check <property> --seed <seed>)", run.seed));
     let loss = *rng.pick(&[0u64, 0, 0, 50, 150, 300]);
     // addresses 1..=3 honest nodes (keys 1..3); address 9: impostor holding key index `imp` of `keys`,
     // presenting [victim cert] or [own cert, victim cert] chains
@@ -944,6 +949,57 @@ fn pinned_history(run: &mut Run, rng: &mut Rng, keys: &Keys, case: u64) -> anyho
     Ok(())
 }
 
+/// C03, last sentence, on a node that is at its configured connection limit: explicit outbound dials
+/// are not subject to the limit, so a dial that returns Ok must have put the party into the connected set
+fn dial_at_limit(run: &mut Run, rng: &mut Rng, case: u64) -> anyhow::Result<()> {
+    let seed = run.seed ^ (case << 8) ^ 0x31;
+    run.mark(&format!("scenario dial_at_limit case {case} seed {}", run.seed));
+    let limit = 1 + rng.below(2) as usize;
+    let n_targets = limit + 1 + rng.below(2) as usize;
+    let pinned = rng.chance(1, 2);
+    let rt = paused_rt();
+    let res: anyhow::Result<Vec<(usize, Result<PeerId, String>, bool, bool, PeerId)>> = rt.block_on(async move {
+        let fabric = Fabric::new(seed);
+        let mut cfg = config_idle(30_000);
+        cfg.max_concurrent_connections = Some(limit);
+        let d = start_node_with(&fabric, 1, key_of(seed, 1), "verif", None, cfg)?;
+        let mut log = crate::peers::NodeLog::new(&d.net);
+        let mut out = vec![];
+        let mut targets = vec![];
+        for i in 0..n_targets {
+            targets.push(start_node(&fabric, seed, 2 + i as u16, config_idle(30_000))?);
+        }
+        for (i, t) in targets.iter().enumerate() {
+            let r = if pinned { tokio::time::timeout(Duration::from_secs(30), d.net.connect_with_peer_id(t.addr, t.id)).await } else { tokio::time::timeout(Duration::from_secs(30), d.net.connect(t.addr)).await };
+            let r = match r {
+                Err(_) => Err("hang".to_string()),
+                Ok(Err(e)) => Err(format!("{e:#}")),
+                Ok(Ok(p)) => Ok(p),
+            };
+            let listed = d.net.peers().contains(&t.id);
+            log.pump();
+            let announced = log.events.iter().any(|e| matches!(e, anemo::types::PeerEvent::NewPeer(p) if *p == t.id));
+            out.push((i, r, listed, announced, t.id));
+            tokio::time::sleep(Duration::from_millis(150)).await;
+        }
+        Ok(out)
+    });
+    drop(rt);
+    for (i, r, listed, announced, tid) in res? {
+        match &r {
+            Ok(p) => {
+                if *p != tid || (!listed && !announced) {
+                    run.oracle_fail(json!({"kind": "connect returned Ok but the party was never in the caller's connected set", "scenario": "dialer at its connection limit", "limit": limit, "dial_index": i, "listed": listed, "announced": announced}));
+                }
+            }
+            Err(e) => run.oracle_fail(json!({"kind": "an explicit outbound dial on a fault-free network failed (outbound dials are not subject to the connection limit)", "limit": limit, "dial_index": i, "error": e})),
+        }
+        run.count("dial-at-limit", if i >= limit { "beyond-limit" } else { "below-limit" });
+        run.eval(&format!("dal{limit}{i}{pinned}"), true);
+    }
+    Ok(())
+}
+
 fn common(run: &mut Run, which: &str) -> anyhow::Result<()> {
     crate::streams::install_panic_counter();
     let mut rng = Rng::new(run.seed);
@@ -1002,6 +1058,9 @@ fn common(run: &mut Run, which: &str) -> anyhow::Result<()> {
             }
             for i in 0..(if q { 40 } else { 2000 }) {
                 pinned_history(run, &mut rng, &keys, 70_000 + i)?;
+            }
+            for i in 0..(if q { 12 } else { 300 }) {
+                dial_at_limit(run, &mut rng, 80_000 + i)?;
             }
         }
         _ => {
